@@ -359,6 +359,33 @@ impl Prop for C18 {
                 },
             });
         }
+        // long words with hundreds of scattered substitutions (edit distances of 400-1300 in ONE
+        // comparison): the ratio is still 2*LCS/len, the ranking exact
+        v.push(Stage {
+            name: "long-words",
+            kind: StageKind::Enumerate {
+                scope: "3 fixed calls: a word of 1200 / 2000 / 2600 characters over 5 letters, candidates = the word with every 6th, every 4th and every 3rd character replaced plus an unrelated string; n = 3, cutoff 0.5".into(),
+                exhaustive: true,
+                gen: |_t, f| {
+                    for n in [1200usize, 2000, 2600] {
+                        let sym = |x: u32| [b'a', b'c', b'g', b't', b'u'][x as usize];
+                        let word: Vec<u8> = lcg_seq(700 + n as u64, n, 5).into_iter().map(sym).collect();
+                        let mut cands = vec![];
+                        for step in [6usize, 4, 3] {
+                            let mut w = word.clone();
+                            for i in (0..w.len()).step_by(step) {
+                                w[i] = b'z';
+                            }
+                            cands.push(BStr(w));
+                        }
+                        cands.push(BStr(lcg_seq(90 + n as u64, n, 5).into_iter().map(|x| [b'k', b'l', b'm', b'n', b'o'][x as usize]).collect()));
+                        if !f(Case { word: BStr(word), cands, n: 3, cutoff: 0.5, bytes: n == 2000 }) {
+                            return;
+                        }
+                    }
+                },
+            },
+        });
         v.push(Stage { name: "random", kind: StageKind::Random { strategy: strat, cases: tier.pick(1_000_000, 6_000_000) } });
         v
     }
